@@ -362,11 +362,63 @@ def replay_from_obs(p):
     return False, 'table sampling ok'
 
 
-def replay_simple(p):
-    return False, 'no concrete oracle'
+def replay_errors(p):
+    import setigen as stg
+    fr = stg.Frame(fchans=4, tchans=4, df=2.0, dt=4.0, fch1=4096.0, seed=1)
+    out = []
+    for kw in (dict(x_mean=1.0, noise_type='gaussian'), dict(x_mean=1.0, noise_type='bogus'), dict(x_mean=1.0, x_std=1.0, noise_type='poisson')):
+        try:
+            fr.add_noise(**kw)
+            out.append('accepted')
+        except ValueError:
+            out.append('ValueError')
+        except Exception as e:
+            out.append(type(e).__name__)
+    for kw in (dict(x_mean_array=np.array([1.0, 2.0]), x_std_array=np.array([1.0]), noise_type='gaussian', share_index=True),
+               dict(x_mean_array=np.array([1.0, 2.0]), x_std_array=np.array([1.0, 2.0]), x_min_array=np.array([1.0]), noise_type='gaussian', share_index=True)):
+        try:
+            fr.add_noise_from_obs(**kw)
+            out.append('accepted')
+        except IndexError:
+            out.append('IndexError')
+        except Exception as e:
+            out.append(type(e).__name__)
+    ok = out == ['ValueError', 'ValueError', 'ValueError', 'IndexError', 'IndexError']
+    return (not ok), f"invalid requests gave {out}"
 
 
-REPLAYS = {'add_noise': replay_add_noise, 'from_obs': replay_from_obs, 'errors': replay_simple, 'snr': replay_simple, 'quadrature': replay_simple}
+def replay_snr(p):
+    import setigen as stg
+    msgs = []
+    fr = stg.Frame(fchans=8, tchans=p.get('T', 4), df=2.0, dt=4.0, fch1=4096.0, seed=1)
+    for f in (fr.get_intensity, fr.get_snr):
+        try:
+            f(3.0)
+            msgs.append('no ValueError without noise')
+        except ValueError:
+            pass
+    fr.add_noise(5.0)
+    for s in (0.5, 10.0, 123.4):
+        i = fr.get_intensity(s)
+        if not np.isclose(i, s * fr.noise_std / np.sqrt(fr.tchans)) or not np.isclose(fr.get_snr(i), s) or not np.isclose(fr.get_intensity(fr.get_snr(s)), s):
+            msgs.append(f"snr {s}: intensity {i}, back {fr.get_snr(i)}")
+    return bool(msgs), '; '.join(msgs) or 'SNR relations ok'
+
+
+def replay_quadrature(p):
+    from setigen.voltage import antenna as an
+    arr = an.MultiAntennaArray(2, sample_rate=1024.0, num_pols=1, delays=[0, 1], seed=3)
+    st, other = arr.antennas[0].x, arr.antennas[1].x
+    vs = [1.5, 0.7, 2.0][:len(p['seq'])]
+    for c, v in zip(p['seq'], vs):
+        (st if c == 's' else arr.bg_x).add_noise(0, v)
+    want = np.sqrt(sum(v * v for v in vs))
+    want_o = np.sqrt(sum(v * v for c, v in zip(p['seq'], vs) if c == 'b'))
+    bad = not (np.isclose(st.get_total_noise_std(), want) and np.isclose(other.get_total_noise_std(), want_o))
+    return bad, f"sequence {p['seq']}: total {st.get_total_noise_std()} (expected {want}), other antenna {other.get_total_noise_std()} (expected {want_o})"
+
+
+REPLAYS = {'add_noise': replay_add_noise, 'from_obs': replay_from_obs, 'errors': replay_errors, 'snr': replay_snr, 'quadrature': replay_quadrature}
 
 
 def main():
